@@ -670,3 +670,41 @@ Proof.
     + exact Hlast.
     + apply (consistent_keys sigs vb vb3); [|exact Hc]. rewrite (finish_keys _ _ _ _ Efin). exact (run_effs_keys _ _ _ _ _ Er).
 Qed.
+
+(* ------------------------------------------------------------------ a cycle section inside the sequence of sections *)
+(* `CYC\0`, the 8 bytes of the first time, the cycles, `ECY\0`: the section reader runs the cycles and goes on with what
+   follows the end mark *)
+Theorem section_cycles lz_compress cap be sigs cs t8 vb e rest f :
+  length t8 = 8%nat ->
+  cs <> [] -> Forall gdt_ok cs -> Forall (fun c => grecs_ok sigs 0 (gc_recs c) /\ effs_of sigs 0 (gc_recs c) <> None) cs ->
+  (forall c, In c (removelast cs) -> (0 <= gc_dt c)%Z) -> (gc_dt (last cs (mk_gcyc [] [] 0)) < 0)%Z ->
+  consistent sigs vb ->
+  sections lz_compress cap (S f) be sigs vb e (CYC ++ t8 ++ concat (map gcyc_bytes cs) ++ ECY ++ rest)
+  = match run_cycles lz_compress cap sigs (read_int be t8) vb e cs with
+    | Ok (Some (vb', e')) => sections lz_compress cap f be sigs vb' e' rest
+    | Ok None => Ok None
+    | Err => Err
+    | Panic => Panic
+    end.
+Proof.
+  intros Ht Hne Hdt Hrecs Hpos Hlast Hc.
+  destruct t8 as [|a0 [|a1 [|a2 [|a3 [|a4 [|a5 [|a6 [|a7 [|x y]]]]]]]]]; try discriminate.
+  set (body := concat (map gcyc_bytes cs) ++ ECY ++ rest).
+  unfold CYC, ghw_cycle_section. cbn [app sections length firstn skipn Nat.ltb Nat.leb].
+  cbn [mark_eq list_eqb]. unfold SNP, ghw_snapshot_section. cbn [list_eqb N.eqb Pos.eqb andb].
+  unfold CYC, ghw_cycle_section. cbn [list_eqb N.eqb Pos.eqb andb].
+  fold body.
+  pose (R := match run_cycles lz_compress cap sigs (read_int be [a0; a1; a2; a3; a4; a5; a6; a7]) vb e cs with
+             | Ok (Some (vb', e')) => Ok (Some (vb', e', ECY ++ rest))
+             | Ok None => Ok None | Err => Err | Panic => Panic end).
+  assert (Hcl : cycle_loop lz_compress cap (S (S (S (S (S (S (S (S (S (length body)))))))))) sigs
+                  (read_int be [a0; a1; a2; a3; a4; a5; a6; a7]) vb e body = R).
+  { unfold body, R. apply (cycle_loop_records lz_compress cap sigs cs _ vb e (ECY ++ rest) _ Hne Hdt Hrecs Hpos Hlast Hc).
+    rewrite app_length.
+    assert (length cs <= length (concat (map gcyc_bytes cs)))%nat.
+    { clear. induction cs as [|c r IH]; cbn [map concat length]; [lia|]. rewrite app_length. unfold gcyc_bytes at 1.
+      rewrite app_length. cbn [length]. lia. }
+    lia. }
+  rewrite Hcl. unfold R.
+  destruct (run_cycles lz_compress cap sigs (read_int be [a0; a1; a2; a3; a4; a5; a6; a7]) vb e cs) as [[[vb' e']|]| |]; cbn [bind]; try reflexivity.
+Qed.
